@@ -170,6 +170,23 @@ def rule_shift_base(eng, rep, rule="C01-5.relative-bounds-follow-the-base-point"
     return st, se
 
 
+def rule_scaling_needs_two_sided_bounds(eng, rep, rule="C01-7.scaling-is-off-unless-both-bounds-are-given"):
+    """Internal scaling maps [xl, xu] to the unit box; with a missing bound it would be built from the +/-1e20 default and lose the finite
+    bound to rounding.  The interpreter is run with scaling requested and each incomplete bound pattern: scaling_changes must stay None."""
+    for mode in ("lower-only", "upper-only", "none"):
+        cfgm = frames.Config(True, False, False, bounds=mode)
+        it = frames.Interp(eng, cfgm).run()
+        sc = it.fields.get(("Controller", "scaling_changes"))
+        site = "solver.solve [%r]" % cfgm
+        if sc is None:
+            rep.unknown(rule, site, "Controller.scaling_changes not reached by the analysis")
+        elif sc.k == "none":
+            rep.ok(rule, site, "scaling_within_bounds=True is overridden: scaling_changes is None on every path")
+        else:
+            rep.bad(rule, site, "solver.solve|scaling-with-incomplete-bounds|%s" % mode,
+                    "with bounds=%s and scaling_within_bounds=True the scaling stays active (built from the +/-1e20 default bound): the finite bound is lost to rounding and points are evaluated outside it" % mode)
+
+
 def run(eng, rep):
     rep.explain("C01: (1) objfun has a single call site; (2) every evaluate_objective argument is assigned only from Model.as_absolute_coordinates; "
                 "(3,4,6) abstract interpretation of the whole solve call tree over the frame domain {U,A,R,?} with exactness facts, once per configuration of "
@@ -183,4 +200,5 @@ def run(eng, rep):
     n = rule_frames(eng, rep)
     rep.require_count("C01-4.frame-agreement", "clamp/scaling/callback sites analysed over all configurations", n, 100)
     rule_shift_base(eng, rep)
+    rule_scaling_needs_two_sided_bounds(eng, rep)
     rep.extra["configurations"] = [repr(c) for c in frames.CONFIGS]
